@@ -735,6 +735,56 @@ func registerReflectModel(e *Engine) {
 		}
 		return st.E.intTerm(big.NewInt(int64(n)), types.Typ[types.Int])
 	})
+	vm("Cap", func(st *State, v *RVal, a []Value) Value {
+		n := 0
+		switch p := st.rpayload(v).(type) {
+		case *SliceV:
+			n = p.Cap
+		case *ArrayV:
+			n = len(p.E)
+		default:
+			st.rpanic("reflect: call of reflect.Value.Cap on %s Value", rkNames[v.Kind])
+		}
+		return st.E.intTerm(big.NewInt(int64(n)), types.Typ[types.Int])
+	})
+	// Slice / Slice3 on slices (and on addressable arrays held in their own object):
+	// concrete indices, Go's bounds rules, the result shares the backing store.
+	reslice := func(st *State, v *RVal, lo, hi, max int, three bool, what string) Value {
+		switch p := st.rpayload(v).(type) {
+		case *SliceV:
+			if !three {
+				max = p.Cap
+			}
+			if lo < 0 || hi < lo || max < hi || max > p.Cap {
+				st.rpanic("reflect.Value.%s: slice index out of bounds", what)
+			}
+			return &RVal{Kind: rkSlice, Typ: v.Typ, Val: &SliceV{Obj: p.Obj, Off: p.Off + lo, Len: hi - lo, Cap: max - lo}}
+		case *ArrayV:
+			if v.Ref == nil || len(v.Ref.Path) != 0 {
+				st.unsupported("reflect.Value.%s on an array that is not a whole addressable object", what)
+			}
+			if !three {
+				max = len(p.E)
+			}
+			if lo < 0 || hi < lo || max < hi || max > len(p.E) {
+				st.rpanic("reflect.Value.%s: slice index out of bounds", what)
+			}
+			at, ok := v.Typ.GoType.Underlying().(*types.Array)
+			if !ok {
+				st.unsupported("reflect.Value.%s on an array without a Go type", what)
+			}
+			rt := st.E.rtypeOfGo(types.NewSlice(at.Elem()))
+			return &RVal{Kind: rkSlice, Typ: rt, Val: &SliceV{Obj: v.Ref.Obj, Off: lo, Len: hi - lo, Cap: max - lo}}
+		}
+		st.unsupported("reflect.Value.%s on %s", what, rkNames[v.Kind])
+		return nil
+	}
+	vm("Slice", func(st *State, v *RVal, a []Value) Value {
+		return reslice(st, v, st.concreteInt(a[0], "slice low"), st.concreteInt(a[1], "slice high"), 0, false, "Slice")
+	})
+	vm("Slice3", func(st *State, v *RVal, a []Value) Value {
+		return reslice(st, v, st.concreteInt(a[0], "slice low"), st.concreteInt(a[1], "slice high"), st.concreteInt(a[2], "slice max"), true, "Slice3")
+	})
 	vm("Index", func(st *State, v *RVal, a []Value) Value {
 		i := st.concreteInt(a[0], "reflect index")
 		switch p := st.rpayload(v).(type) {
